@@ -3,6 +3,7 @@ module verif
 go 1.23
 
 require (
+	github.com/fasthttp/websocket v1.5.0
 	github.com/google/uuid v1.3.0
 	github.com/hprose/hprose-golang/v3 v3.0.0
 	github.com/valyala/fasthttp v1.37.0
@@ -12,7 +13,6 @@ require (
 require (
 	github.com/andot/complexconv v1.0.0 // indirect
 	github.com/andybalholm/brotli v1.0.4 // indirect
-	github.com/fasthttp/websocket v1.5.0 // indirect
 	github.com/json-iterator/go v1.1.12 // indirect
 	github.com/klauspost/compress v1.15.0 // indirect
 	github.com/modern-go/concurrent v0.0.0-20180228061459-e0a39a4cb421 // indirect
